@@ -87,13 +87,18 @@ fn base_scene(bw: u32, bh: u32, focal: f32, near: f32, far: f32, tris: &[[[f32; 
 }
 
 pub fn case_strategy(max_dim: u32, n_hist: usize) -> BoxedStrategy<HsrCase> {
-    (4u32..=max_dim, 4u32..=max_dim, 0.5f32..2.0, 0.2f32..2.0, 2.0f32..50.0, 2usize..=6, any::<bool>())
-        .prop_flat_map(move |(bw, bh, focal, near, ratio, n, camera)| {
+    (4u32..=max_dim, 4u32..=max_dim, 0.5f32..2.0, prop_oneof![3 => 0.2f32..2.0, 2 => log_uniform(-1.0, 3.7)], 2.0f32..50.0, 2usize..=6, (any::<bool>(), 0u8..4))
+        .prop_flat_map(move |(bw, bh, focal, near, ratio, n, (camera, disc))| {
             let far = near * ratio;
             let aspect = bw as f32 / bh as f32;
-            (Just((bw, bh, focal, near, far, camera)), view_tris(n..=n, focal, aspect, near, far), proptest::collection::vec(history(n), n_hist..=n_hist + 4))
+            (Just((bw, bh, focal, near, far, camera, disc == 0)), view_tris(n..=n, focal, aspect, near, far), proptest::collection::vec(history(n), n_hist..=n_hist + 4))
         })
-        .prop_map(|((bw, bh, focal, near, far, camera), tris, histories)| HsrCase { scene: base_scene(bw, bh, focal, near, far, &tris, camera), histories })
+        .prop_map(|((bw, bh, focal, near, far, camera, discard), tris, histories)| {
+            let mut scene = base_scene(bw, bh, focal, near, far, &tris, camera);
+            // a cut-out (discarding) shader: discarded fragments cover nothing, so they must not occlude anything either
+            scene.cfg.discard = discard;
+            HsrCase { scene, histories }
+        })
         .boxed()
 }
 
@@ -103,7 +108,7 @@ fn solos(sc: &Scene) -> Result<Vec<(Vec<u32>, Vec<f32>, Vec<bool>)>, Fail> {
     for t in 0..sc.tris.len() {
         let mut s1 = sc.clone();
         s1.target = TargetKind::FbOwned;
-        s1.cfg = Cfg::plain();
+        s1.cfg = Cfg { discard: sc.cfg.discard, ..Cfg::plain() };
         s1.shared_verts = false;
         let mut s = Session::new(&s1);
         if let Err(p) = s.draw(&[t]) {
@@ -214,6 +219,9 @@ pub fn check(c: &HsrCase, obs: &mut Obs) -> Check {
     obs.class_n("pixels-with-overlap", overlap_px);
     obs.class_n("pixels-excluded-exact-tie", model.iter().filter(|m| m.is_none()).count() as u64);
     obs.class(if sc.door == Door::Camera { "door:camera" } else { "door:render" });
+    if sc.cfg.discard {
+        obs.class("shader:discarding(cut-out)");
+    }
     if order_matters {
         obs.nontrivial(hash_of(&(&sc.tris, sc.bw, sc.bh)));
         if obs.wants_sample() {
@@ -234,7 +242,7 @@ pub struct LayerCase {
 }
 
 pub fn layer_strategy(max_dim: u32) -> BoxedStrategy<LayerCase> {
-    (4u32..=max_dim, 4u32..=max_dim, 0.5f32..2.0, 0.2f32..2.0, 2usize..=5, any::<bool>())
+    (4u32..=max_dim, 4u32..=max_dim, 0.5f32..2.0, prop_oneof![2 => 0.2f32..2.0, 3 => log_uniform(-1.0, 4.0)], 2usize..=5, any::<bool>())
         .prop_flat_map(|(bw, bh, focal, near, n, camera)| {
             let far = near * 40.0;
             let aspect = bw as f32 / bh as f32;
@@ -302,6 +310,11 @@ pub fn check_layers(c: &LayerCase, obs: &mut Obs) -> Check {
         obs.nontrivial(hash_of(&(&sc.tris, &c.order)));
     }
     obs.class(if sc.door == Door::Camera { "door:camera" } else { "door:render" });
+    if let Some(Proj::Perspective { far, .. }) = &sc.proj {
+        if far.0 > 1e4 {
+            obs.class("far-plane>1e4");
+        }
+    }
     Ok(())
 }
 
